@@ -64,7 +64,7 @@ def std_ops(n):
     ops = []
     for _ in range(n + 2):
         ops += ['C', 'P', 'N']
-    ops += ['C', 'R0', 'P', 'N', 'C', 'r1', 'N', 'C', 'M0', 'C', 'm1', 'C', 'S', 'C', 'K2', 'X1', 'C', 'N', 'R2', 'C', 'N']
+    ops += ['O', 'C', 'R0', 'P', 'N', 'C', 'r1', 'N', 'C', 'M0', 'C', 'm1', 'C', 'W', 'C', 'S', 'C', 'K2', 'X1', 'C', 'N', 'R2', 'C', 'N', 'J%d' % min(1, n), 'C', 'O', 'N', 'O']
     return ops
 
 def random_ops(rng, n):
@@ -79,8 +79,11 @@ def random_ops(rng, n):
         elif r < 0.8: ops.append('r%d' % rng.randint(0, max(0, k)))
         elif r < 0.85: ops.append('M%d' % rng.randint(0, max(0, k)))
         elif r < 0.9: ops.append('m%d' % rng.randint(0, max(0, k)))
-        elif r < 0.94: ops.append('S')
-        elif r < 0.97: ops.append('K%d' % rng.randint(0, 3))
+        elif r < 0.92: ops.append('S')
+        elif r < 0.94: ops.append('O'); k += 1
+        elif r < 0.955: ops.append('W')
+        elif r < 0.965: ops.append('J%d' % rng.randint(0, max(0, min(n, 3))))
+        elif r < 0.985: ops.append('K%d' % rng.randint(0, 3))
         else: ops.append('X%d' % rng.randint(0, 3))
     ops.append('C')
     return ops
@@ -220,6 +223,17 @@ def run_ops(s, psd, tol, ops):
                 outs.append('%s %d %d' % (show_str(sp), a, b))
             elif code == 'C':
                 outs.append(str(r.cur_pos()))
+            elif code == 'O':
+                t = r.peek_token_or_none(ps)
+                if t is None:
+                    outs.append('None')
+                else:
+                    toks.append(t); outs.append(psdesc.show_tok(t))
+            elif code == 'W':
+                sp, a, b = r.peek_space_chars(ps)
+                outs.append('%s %d %d' % (show_str(sp), a, b))
+            elif code == 'J':
+                r.move_to_pos_chars(int(arg)); outs.append('ok')
             elif code == 'K':
                 outs.append(show_str(r.peek_chars(int(arg), ps)))
             elif code == 'X':
